@@ -401,11 +401,15 @@ fn drain_check(st: &St, mode: Mode, class: &str, pre_gap: Option<i64>, ev: &mut 
     let limit = st.sto.page_count as usize + 4;
     let mut got: Vec<u32> = Vec::with_capacity(st.m.n_avail as usize + 2);
     let mut problem: Option<(&'static str, String)> = None;
+    // head_page at the time of the drain call that failed (0 = the call ran with no head trunk but a
+    // non-zero free_count, i.e. it dereferenced page 0)
+    let fail_head = Cell::new(u32::MAX);
     let r = vcore::catch(|| {
         loop {
             if got.len() > limit {
                 return Some(("no-termination", format!("more than {limit} pages returned")));
             }
+            fail_head.set(fl.head_page());
             match fl.allocate(&mut sto) {
                 Ok(Some(p)) => got.push(p),
                 Ok(None) => return None,
@@ -417,6 +421,7 @@ fn drain_check(st: &St, mode: Mode, class: &str, pre_gap: Option<i64>, ev: &mut 
         Ok(p) => problem = p,
         Err(p) => problem = Some(("panic", p)),
     }
+    let class = if problem.is_some() && fail_head.get() == 0 { "allocate-with-no-head-trunk" } else { class };
     ev.drained_pages += got.len() as u64;
     // set comparison
     let mut bad: Option<(&'static str, u32)> = None;
@@ -965,6 +970,10 @@ impl Check for C34 {
             }
             done.push(op);
             let v = apply(&mut st, op, mode, true, &mut ev, &mut seen);
+            if std::env::var("C34_TRACE").is_ok() {
+                eprintln!("   p0[16..24]={:02x?} p1[16..24]={:02x?} materialized={:?}", &st.sto.raw(0)[16..24], &st.sto.raw(1)[16..24], st.sto.pages.iter().map(|(n, _)| *n).collect::<Vec<_>>());
+                eprintln!("{:8} -> head={} free_count={} held={:?} avail={} overhead={:?} head_trunk={:?}", op.name(), st.head, st.fc, st.m.held, st.m.n_avail, st.m.overhead, st.inspect());
+            }
             rep.add_transitions(1);
             if !v.is_empty() {
                 for x in v {
